@@ -20,6 +20,7 @@ CHECKS = {
             {"harness": "H_C20_split_vectors", "reach": ["split"], "bound_quick": "0..2 flags from 6 class representatives x 3 spellings, 1-byte values, 0..1 package args", "bound_thorough": "0..3 flags from 10 representatives, 1..2-byte values, 0..2 package args"},
             {"harness": "H_C20_split_symbolic", "reach": ["split"], "bound_quick": "1..2 fully symbolic arguments of 1..3 bytes (single-dash)", "bound_thorough": "1..3 arguments"},
             {"harness": "H_C20_forward", "reach": ["forward"], "bound_quick": "1 documented flag x 3 spellings, 1-byte value", "bound_thorough": "1..2 flags, 1..2-byte values"},
+            {"harness": "H_C20_reject_unknown", "reach": ["reject"], "bound": "every documented flag x 3 spellings, 1..2-byte values"},
             {"harness": "H_C20_garbleflag_values", "reach": ["rx"], "bound": "10 concrete arguments that contain a garble flag name without being one"},
             {"harness": "H_C20_garbleflag_positive", "reach": ["rx"], "bound": "5 garble flags x {-,--} x {bare, =value of 0..2 symbolic bytes}, through the real regexp engine"},
         ],
@@ -56,9 +57,9 @@ CHECKS = {
         "claim": "garble's contribution to cmd/go's action IDs and its own cache IDs is injective in garble's output-affecting inputs",
         "opts": dict(W),
         "runs": [
-            {"harness": "H_C06_key_injective", "reach": ["hashed"], "bound_quick": "2 configurations: GOGARBLE len in {0,1,2,8}, -literals, -tiny, seed absent/8 bytes; 2-byte IDs", "bound_thorough": "adds len 12 and controlflow on/off"},
-            {"harness": "H_C06_key_ignores_debug", "reach": ["hashed"], "bound": "all configurations of the quick shape"},
-            {"harness": "H_C06_cache_kinds", "reach": ["hashed"], "bound": "arbitrary 32-byte garble action IDs"},
+            {"harness": "H_C06_key_injective", "uf": True, "reach": ["hashed"], "bound_quick": "2 configurations: GOGARBLE len in {0,1,2,8}, -literals, -tiny, seed absent/8 bytes; 2-byte IDs", "bound_thorough": "adds len 12 and controlflow on/off"},
+            {"harness": "H_C06_key_ignores_debug", "uf": True, "reach": ["hashed"], "bound": "all configurations of the quick shape"},
+            {"harness": "H_C06_cache_kinds", "uf": True, "reach": ["hashed"], "bound": "arbitrary 32-byte garble action IDs"},
         ],
         "outside": ["cmd/go's use of the tool ID and GOCACHE", "-tags/-ldflags/source edits (covered by cmd/go's action IDs)", "-ldflags seen by -literals at compile time (acknowledged risk, transformer.go:45-57)", "alterToolVersion's exec of the real tool", "linker version stamp (internal/linker)"],
     },
@@ -83,11 +84,11 @@ CHECKS = {
         "claim": "name salting: seeded names depend on (seed, package path, identifier) only and are injective in them; unseeded names follow the garble action ID; field names ignore action IDs; runtime keys follow the same inputs; -seed parsing round-trips",
         "opts": dict(W),
         "runs": [
-            {"harness": "H_C12_seeded_stable", "reach": ["hashed"], "bound": "2 configurations x paths/identifiers of 1..2 symbolic bytes"},
-            {"harness": "H_C12_seeded_distinct", "reach": ["hashed"], "bound_quick": "paths and identifiers of 1..2 bytes, seeds 8..9 bytes", "bound_thorough": "1..3 bytes"},
-            {"harness": "H_C12_unseeded_pkg", "reach": ["hashed"], "bound": "arbitrary 32-byte action IDs, identifiers of 1..2 bytes"},
-            {"harness": "H_C12_fields", "reach": ["hashed"], "bound": "a 2-field struct built with go/types; 2 configurations"},
-            {"harness": "H_C12_runtime_keys", "reach": ["hashed"], "bound": "arbitrary runtime action ID / 8-byte seeds"},
+            {"harness": "H_C12_seeded_stable", "uf": True, "reach": ["hashed"], "bound": "2 configurations x paths/identifiers of 1..2 symbolic bytes"},
+            {"harness": "H_C12_seeded_distinct", "uf": True, "reach": ["hashed"], "bound_quick": "paths and identifiers of 1..2 bytes, seeds 8..9 bytes", "bound_thorough": "1..3 bytes"},
+            {"harness": "H_C12_unseeded_pkg", "uf": True, "reach": ["hashed"], "bound": "arbitrary 32-byte action IDs, identifiers of 1..2 bytes"},
+            {"harness": "H_C12_fields", "uf": True, "reach": ["hashed"], "bound": "a 2-field struct built with go/types; 2 configurations"},
+            {"harness": "H_C12_runtime_keys", "uf": True, "reach": ["hashed"], "bound": "arbitrary runtime action ID / 8-byte seeds"},
             {"harness": "H_C12_seedflag", "reach": ["set"], "bound": "seeds of 6..10 symbolic bytes, 0..2 padding characters"},
         ],
         "outside": ["that cmd/go's action ID covers source, tags and platform", "struct identity hashing for other struct shapes (C15)"],
